@@ -3,6 +3,7 @@ package engine
 import (
 	"fmt"
 	"go/constant"
+	"go/token"
 	"go/types"
 	"strings"
 
@@ -126,6 +127,7 @@ func (fr *Frame) callStatic(callee *ssa.Function, c *ssa.CallCommon, args []Val,
 		return fr.execIterate(c, args, resT, cond, st)
 	}
 	if sp != nil && sp.Inline && callee.Blocks != nil {
+		fr.inlineAt = c.Pos()
 		return fr.callClosure(&Closure{Fn: callee}, args, resT, cond, st, nil)
 	}
 	if sp != nil {
@@ -137,6 +139,7 @@ func (fr *Frame) callStatic(callee *ssa.Function, c *ssa.CallCommon, args []Val,
 	// a repository function without contract (a small helper, possibly one just extracted from its caller) is
 	// executed in place: its body is part of the caller's proof, its panics are the caller's obligations
 	if vc.W.inlinable(callee) && fr.inlineDepth() < 4 {
+		fr.inlineAt = c.Pos()
 		return fr.callClosure(&Closure{Fn: callee}, args, resT, cond, st, nil)
 	}
 	return fr.havocCall("call to "+qualifiedName(callee)+" without contract", c, args, resT, cond, st)
@@ -172,6 +175,14 @@ func (fr *Frame) callClosure(clo *Closure, args []Val, resT types.Type, cond str
 	}
 	sub := vc.newFrame(fn, fr)
 	sub.parent = fr
+	at := fr.inlineAt
+	fr.inlineAt = token.NoPos
+	if ov == nil && fn.Parent() == nil && at.IsValid() {
+		// a helper executed in place: its loops are numbered, specified and named as part of the function under contract
+		if base, ok := fr.inlOrd[at]; ok {
+			sub.rebase(base, fr.loopOwnerFrame())
+		}
+	}
 	if ov != nil {
 		for _, li := range sub.loops {
 			li.spec = ov.spec
@@ -1357,8 +1368,11 @@ func (fr *Frame) execIterate(c *ssa.CallCommon, args []Val, resT types.Type, con
 	st.cells[vcell] = fmt.Sprintf("((as const (Array %s Bool)) false)", ks)
 	ord := fr.virtOrd[c.Pos()]
 	li := &loopInfo{ordinal: ord, frame: fr, rng: &RangeState{Map: Val{T: m.T, Term: mterm}, Visited: vcell, KeySort: ks}}
-	if fr.spec != nil {
-		li.spec = fr.spec.Loops[ord]
+	if of := fr.loopOwnerFrame(); of.spec != nil {
+		li.spec = of.spec.Loops[ord]
+		if of != fr {
+			li.ownerKey = of.key
+		}
 	}
 	li.entryState = st.clone()
 	fr.checkInvariants(li, cond, st, "inv-init")
